@@ -1612,17 +1612,35 @@ def reachable_tagged(fn, start, removed_edges=(), removed_blocks=(), max_states=
                 if d.get("p"):
                     if d["p"][0] != "deref":
                         tg.pop(d["l"], None)
+                        for k_ in [k_ for k_ in tg if isinstance(k_, tuple) and k_[0] == d["l"]]:
+                            del tg[k_]
                     continue
                 rv = st["rv"]
                 new = None
+                for k_ in [k_ for k_ in tg if isinstance(k_, tuple) and k_[0] == d["l"]]:
+                    del tg[k_]                              # the whole value is replaced: what was known of its fields is gone
                 if rv["k"] in ("ref", "rawptr") and rv.get("bk") not in ("shared", "fake") and isinstance(rv.get("place"), dict):
                     tg.pop(rv["place"]["l"], None)          # a `&mut x` escapes: x may change behind our back
+                if rv["k"] == "agg" and rv.get("ak") == "tuple":
+                    for i_, o_ in enumerate(rv.get("ops", [])):
+                        pl_ = op_place(o_)
+                        if pl_ is not None and is_plain_local(pl_) and pl_["l"] in tg:
+                            tg[(d["l"], i_)] = tg[pl_["l"]]          # `(value, all_ok)`: remember what each field holds
+                        elif pl_ is None and isinstance(o_, dict) and "const" in o_ and isinstance(o_["const"].get("val"), (bool, int)):
+                            tg[(d["l"], i_)] = ("d", int(o_["const"]["val"]))
                 if rv["k"] == "agg" and rv.get("ak") == "adt" and rv.get("variant") is not None:
                     new = ("v", rv["variant"], rv.get("vi"))
                 elif rv["k"] == "use":
                     pl = op_place(rv["op"])
                     if pl is not None and is_plain_local(pl) and pl["l"] in tg:
                         new = tg[pl["l"]]
+                        for k_ in [k_ for k_ in tg if isinstance(k_, tuple) and k_[0] == pl["l"]]:
+                            tg[(d["l"], k_[1])] = tg[k_]            # a tuple moved as a whole keeps its field knowledge
+                    elif pl is not None and is_plain_local(pl):
+                        for k_ in [k_ for k_ in tg if isinstance(k_, tuple) and k_[0] == pl["l"]]:
+                            tg[(d["l"], k_[1])] = tg[k_]
+                    elif pl is not None and len(pl.get("p") or []) == 1 and isinstance(pl["p"][0], dict) and "f" in pl["p"][0] and (pl["l"], pl["p"][0].get("i")) in tg:
+                        new = tg[(pl["l"], pl["p"][0].get("i"))]     # `let (v, ok) = pair;`
                     elif pl is None and isinstance(rv["op"], dict) and "const" in rv["op"]:
                         cv = rv["op"]["const"].get("val")
                         if isinstance(cv, (bool, int)):
@@ -1654,6 +1672,8 @@ def reachable_tagged(fn, start, removed_edges=(), removed_blocks=(), max_states=
                 if pl is not None and is_plain_local(pl) and pl["l"] in tg and tg[pl["l"]][0] == "v" and tg[pl["l"]][1] in BR:
                     new = ("v",) + BR[tg[pl["l"]][1]]
             if not d.get("p"):
+                for k_ in [k_ for k_ in tg if isinstance(k_, tuple) and k_[0] == d["l"]]:
+                    del tg[k_]
                 if new is None:
                     tg.pop(d["l"], None)
                 else:
